@@ -75,6 +75,10 @@ chk("C18", "Coq theorems (Model/Cas.v): with a strong compare-exchange the publi
     "Sequentially consistent model; memory orderings not verified; clone/drop covered by the ledger only.",
     "Coq proof (invariant over all schedules, any thread count) + exhaustive schedule exploration replayed in the model")
 
+chk("C01", "PARTIAL. Coq theorems for the arithmetic that decides safety: Error::syntax's snippet slicing and Parser::error's clamp never leave the input; the refusing node buffer of len/2+2 always suffices; in-place unescaping writes strictly behind its reads and keeps unread bytes and padding; arena handles are never used after free or freed twice for any history; the publish-once caches never dereference null or freed memory under any schedule. Tie: every safe entry point on generated / mutated / truncated / boundary-size inputs with a per-input verdict (no panic, tracked allocations released), deep nesting in a child process; the harness is built with overflow checks and debug assertions on (which found F25, F26, F29, F30).",
+    "Not shown: undefined behaviour inside unsafe blocks that happens not to crash, allocator internals, SIMD over-reads (argued by the padding and page checks, exercised with a guard page in C05). No sanitizer run is part of the quick tier.",
+    "Coq proof of the safety-deciding arithmetic and protocols + exhaustive entry-point correspondence with allocation ledger")
+
 NA = {}
 ALL = ["C%02d" % i for i in range(1, 21)]
 for p in ALL:
